@@ -25,6 +25,10 @@
 //            reference then uses the documented defaults (CoverTree search under TAPKEE_USE_LGPL_COVERTREE, else
 //            Brute; check_connectivity = true; dense solver): leaving a default unset must behave as setting it.
 //   nmethod: 0 = Brute, 1 = VpTree, 2 = CoverTree
+//   Both methods are run once more from INSIDE an application-style `#pragma omp parallel num_threads(2)` region (the
+//   call is made by thread 0 while the other thread of the team waits): -> @Y3 (or @EXC3).  Whatever OpenMP
+//   constructs the library uses (own parallel regions, nested or not, limited by OMP_THREAD_LIMIT), the result must
+//   be the embedding of the plain call (bitwise for the deterministic dense path).
 // stdout: every line the check reads starts with '@'; "@C id" is flushed before a case, "@END id" after it.
 #include <cmath>
 #include <cstdio>
@@ -34,6 +38,7 @@
 #include <string>
 #include <vector>
 #include <algorithm>
+#include <omp.h>
 #include <tapkee/tapkee.hpp>
 
 using namespace tapkee;
@@ -252,6 +257,32 @@ static void run_le(std::istringstream& is)
         }
         TapkeeOutput out = tapkee::with(ps).withDistance(cb).embedUsing(idx);
         print_mat("Y", out.embedding);
+        fflush(stdout);
+        // the same call from inside an application's own parallel region
+        DenseMatrix y3;
+        std::string exc3;
+        bool ok3 = false;
+#pragma omp parallel num_threads(2)
+        {
+            if (omp_get_thread_num() == 0)
+            {
+                try
+                {
+                    TapkeeOutput o3 = tapkee::with(ps).withDistance(cb).embedUsing(idx);
+                    y3 = o3.embedding;
+                    ok3 = true;
+                }
+                catch (const std::exception& e)
+                {
+                    exc3 = e.what();
+                }
+                catch (...)
+                {
+                    exc3 = "unknown exception";
+                }
+            }
+        }
+        if (ok3) print_mat("Y3", y3); else printf("@EXC3 %s\n", exc3.c_str());
     }
     catch (const std::exception& e)
     {
@@ -298,9 +329,45 @@ static void run_dmap(std::istringstream& is)
     else
         printf("@REFFAIL\n");
     fflush(stdout);
-    for (int pass = 0; pass < 2; pass++)
+    for (int pass = 0; pass < 3; pass++)
     {
         std::srand(seed);
+        if (pass == 2)
+        {
+            // timesteps t again, from inside an application's own parallel region
+            DenseMatrix y3;
+            std::string exc3;
+            bool ok3 = false;
+#pragma omp parallel num_threads(2)
+            {
+                if (omp_get_thread_num() == 0)
+                {
+                    try
+                    {
+                        ParametersSet ps;
+                        ps.add(method = DiffusionMap);
+                        if (em != 2 || d != 2) ps.add(target_dimension = d);
+                        if (em != 2 || t != 3) ps.add(diffusion_map_timesteps = t);
+                        if (em != 2 || width != 1.0) ps.add(gaussian_kernel_width = width);
+                        if (em != 2) ps.add(eigen_method = (em == 0 ? Dense : Randomized));
+                        TapkeeOutput o3 = tapkee::with(ps).withDistance(cb).embedUsing(idx);
+                        y3 = o3.embedding;
+                        ok3 = true;
+                    }
+                    catch (const std::exception& e)
+                    {
+                        exc3 = e.what();
+                    }
+                    catch (...)
+                    {
+                        exc3 = "unknown exception";
+                    }
+                }
+            }
+            if (ok3) print_mat("Y3", y3); else printf("@EXC3 %s\n", exc3.c_str());
+            fflush(stdout);
+            break;
+        }
         try
         {
             ParametersSet ps;
